@@ -61,8 +61,10 @@ pub fn drive(seed: u64, n: usize) -> Vec<Value> {
     let mut out = Vec::new();
     for i in 0..n {
         let tall = rng.chance(1, 10);
-        let w = rng.range(1, if tall { 4 } else { 6 });
-        let h = rng.range(1, if tall { 4 } else { 6 });
+        // a few large surfaces (many sample rows and buckets)
+        let large = !tall && rng.chance(1, 40);
+        let w = if large { rng.range(20, 40) } else { rng.range(1, if tall { 4 } else { 6 }) };
+        let h = if large { rng.range(17, 33) } else { rng.range(1, if tall { 4 } else { 6 }) };
         let nloops = rng.range(1, 3);
         let mut loops = Vec::new();
         let mut closed = Vec::new();
